@@ -18,7 +18,7 @@ CHECKS = {
    text="The multiset of executed (call, fork, phase, chunk) must equal the reference model's set: one recorded fork per expected invocation, each job started once, chunk jobs == chunks the split defined, nothing for disabled calls; boundary collection sizes (0,1,9,10,11).",
    ref="3 C03"),
  "C04": dict(level="exploration", tech="runtime monitoring: consumer-side file liveness checks under all VDR modes with delays at VDR hook points",
-   text="File-passing programs under rolling/post/strict VDR: every consumer probe stats and reads every path named in its own arguments when it starts (content tokens identify the producer's file); at completion every top-level file output and retained file must carry the producer's token. Sampled programs/schedules. A sixth of the cases reach the pipestance through a symlinked parent directory with half of the files named by physical path; a third carry the paths of written files in string-typed outputs.",
+   text="File-passing programs under rolling/post/strict VDR: every consumer probe stats and reads every path named in its own arguments when it starts (content tokens identify the producer's file); at completion every top-level file output and retained file must carry the producer's token. Sampled programs/schedules. A sixth of the cases reach the pipestance through a symlinked parent directory with half of the files named by physical path; a third carry the paths of written files in string-typed outputs, every twelfth is a volatile producer with string-typed outputs only and two successive readers.",
    ref="3 C04"),
  "C05": dict(level="fault_enumeration", tech="fault injection: crash (SIGKILL and the handled signals TERM/INT/HUP/USR1/USR2) at enumerated hook points and job-side points, restart, compare with uninterrupted baseline",
    text="The baseline run of each program yields the ordered list of mrp hook hits between filesystem effects; crash specs (point, occurrence, signal) are enumerated (all points for small programs in the thorough tier, stratified by point class otherwise), plus job-side kills of mrp and double crashes. After restart(s): exit 0, outputs and outs/ tokens equal the baseline, no job with a completion marker older than the interruption starts again, no _lock after a handled signal. The job monitor (mrjob) also signals mrp from its own hook points just before / just after it records a job's completion, so that the monitor itself is signalled by mrp's death inside that window. Every hook hit of the post-processing window is a crash point; every fourth program runs with --zip (crash points inside the metadata archiving); directed interruptions when the first fork of a run-time map call has ended; half of the programs take negative float / large integer invocation arguments.",
